@@ -199,6 +199,16 @@ func TestAdm(t *testing.T) {
 	if err != nil {
 		t.Fatal(err)
 	}
+	// scratch directories of the children live under one base that the parent removes: a child that
+	// crashes or is recycled cannot clean up after itself
+	shmBase := hx.ShmBase()
+	if st, err := os.Stat(shmBase); err != nil || !st.IsDir() {
+		shmBase = os.TempDir()
+	}
+	if d, err := ioutil.TempDir(shmBase, "verif-c14p-"); err == nil {
+		os.Setenv("VERIF_ADM_SHM", d)
+		defer os.RemoveAll(d)
+	}
 	rn := &runner{out: out, seed: hx.Seed(), minimise: hx.EnvInt("VERIF_ADM_MINIMISE", 6), seenSig: map[string]bool{}}
 	var ccs []concCase
 	for i, l := range raw {
